@@ -189,6 +189,13 @@ where
         }
         Act::Register { counter } => {
             auth.set_make_credentials_with_signature_counter(*counter);
+            // the consuming builders applied AFTER the setter, in rotation with the history's length
+            // (configuration order is no input of the ceremony: the counter setting must survive)
+            auth = match before.len() % 3 {
+                1 => auth.hmac_secret(HmacSecretConfig::new_without_uv()),
+                2 => auth.transports(vec![passkey_types::webauthn::AuthenticatorTransport::Internal]),
+                _ => auth,
+            };
             // ask for hmac-secret so that the new credential can serve PRF requests later
             let ext = passkey_types::ctap2::make_credential::ExtensionInputs { hmac_secret: Some(true), hmac_secret_mc: None, prf: None };
             let req = mc_request(RP, &[9], None, true, true, true, false, Some(ext));
@@ -401,7 +408,7 @@ pub fn eval_client(c: &ClientCase) -> Vec<Finding> {
         item.rp_id = String::new();
     }
     let log = Log::new();
-    let cfg = super::common::AuthCfg { counter: true, id_len: None, hmac: if c.capable { 2 } else { 0 }, hmac_mc: false };
+    let cfg = super::common::AuthCfg { counter: true, id_len: None, hmac: if c.capable { 2 } else { 0 }, hmac_mc: false, order: 0 };
     let ext = match c.ext {
         0 => None,
         1 => Some(webauthn::AuthenticationExtensionsClientInputs { cred_props: None, prf: Some(webauthn::AuthenticationExtensionsPrfInputs { eval: Some(webauthn::AuthenticationExtensionsPrfValues { first: vec![1, 2, 3].into(), second: None }), eval_by_credential: None }), prf_already_hashed: None }),
